@@ -145,7 +145,8 @@ class Report:
         if self.broken:
             for b in self.broken:
                 print("ANALYSIS-BROKEN property=%s %s" % (self.pid, b))
-            return 2
+            if not new:
+                return 2
         if new:
             for v in new:
                 print("  violation: rule=%s instance=%s at %s in %s: %s -- %s%s" % (
